@@ -161,4 +161,33 @@ func ZZ_C11_take() {
 		}
 	}
 	zzsym.Assert(stillQueued || inBlock, "taken-transaction-is-not-lost")
+	// ... and it reaches a committed block: the node restarts (real NewManager
+	// on the durable image, the sequencing layer keeps its queue), another
+	// batch arrives, two crash-free production steps run
+	e.store = e.store.reopen()
+	m2, err := NewManager(context.Background(), e.signer, e.cfg, e.gen, e.store, e.exec, q, nil, m0logger(), nil, nil, e.hb, e.db, NopMetrics(), 1, 1, DefaultManagerOptions())
+	zzsym.Assert(err == nil, "restart-after-take")
+	if err != nil {
+		return
+	}
+	later := int64(tip.header.BaseHeader.Time)
+	if ts > later {
+		later = ts
+	}
+	q.queue = append(q.queue, [][]byte{{0x77, 0x77}})
+	q.ts = append(q.ts, later+1)
+	_ = m2.publishBlockInternal(context.Background())
+	_ = m2.publishBlockInternal(context.Background())
+	committed := false
+	for h := H + 1; h <= e.store.height && h <= H+3; h++ {
+		if sl, ok := e.store.blocks[h]; ok {
+			for _, t := range sl.data.Txs {
+				if bytes.Equal(t, tx) {
+					committed = true
+				}
+			}
+		}
+	}
+	zzsym.Assert(committed || len(q.queue) > 0 && bytes.Equal(q.queue[0][0], tx), "taken-transaction-reaches-a-committed-block")
+	zzsym.Reach("after-restart")
 }
